@@ -97,7 +97,8 @@ def genericTys (hasU hasN hasLt : Bool) : List Ty :=
    Ty.app "PhantomData" [.dynT true [.mk "core" [], .mk "ops" [], .fn "Fn" [.ref none false tyT, Ty.simple "u8"] (some (Ty.app "Option" [tyT]))]] ] ++
   (if hasU then [Ty.app "Box" [.dynT false [.fn "Fn" [tyT] (some tyU)]], tyU, .tuple [tyT, tyU], .bareFn [tyT] (some tyU), Ty.app "Pair" [tyT, tyU], Ty.app "Option" [tyU]] else []) ++
   (if hasN then [.array tyT (.ident "N"), .array (Ty.simple "u8") (.ident "N"), Ty.app "Arr" [Ty.simple "N"],
-                 .path false [.mk "Arr" [.lit "3"]]] else []) ++
+                 .path false [.mk "Arr" [.lit "3"]], .path false [.mk "Arr" [.cblock (.ident "N")]],
+                 .path false [.mk "Arr" [.cblock (.lit "3")]]] else []) ++
   (if hasLt then [.ref (some "'a") false tyT, .ref (some "'a") true (Ty.simple "u8"), .ref (some "'a") false (Ty.simple "str"),
                   .path false [.mk "Cow" [.lt "'a", .ty tyT]]] else [])
 
@@ -318,7 +319,8 @@ def genComposedTy (ctx : GCtx) : Gen Ty := do
     [(6, tyT), (2, .path false [.mk "T" [], .mk "Assoc" []]), (1, .path true [.mk "T" []]), (1, .path false [.mk "m" [], .mk "T" []]),
      (1, Ty.simple "u8")] ++
     (if ctx.hasU then [(3, tyU)] else []) ++
-    (if ctx.hasN then [(2, .array (Ty.simple "u8") (.ident "N")), (2, Ty.app "Arr" [Ty.simple "N"]), (1, .array tyT (.ident "N"))] else [])
+    (if ctx.hasN then [(2, .array (Ty.simple "u8") (.ident "N")), (2, Ty.app "Arr" [Ty.simple "N"]), (1, .array tyT (.ident "N")),
+                       (2, .path false [.mk "Arr" [.cblock (.ident "N")]])] else [])
   let leaf ← pickW leaves
   let depth ← pickW [(3, 1), (3, 2), (1, 3)]
   wrapTy ctx.hasLt leaf depth
@@ -626,7 +628,9 @@ def genImplCase (fam : String) (seed idx : Nat) : Case := runGen seed idx do
                       (1, .paren x), (1, .tuple [x, Ty.simple "u8"]),
                       -- trait objects as self type: with several bounds `&Self` has to be spelled `&(dyn A + B)`
                       (1, .dynT false [.mk "Tr" []] [["Send"]]), (1, .dynT false [.mk "Tr" []]),
-                      (1, Ty.ref none false (.paren (.dynT false [.mk "Tr" []] [["Send"], ["'static"]])))]
+                      (1, Ty.ref none false (.paren (.dynT false [.mk "Tr" []] [["Send"], ["'static"]]))),
+                      -- `Self` inside the self type itself (rustc rejects it later; the expander has to get through)
+                      (1, Ty.app "W" [Ty.selfTy]), (1, .ref none false (.tuple [Ty.selfTy, Ty.simple "u8"]))]
   let rhsArg ← pickW [(3, (none : Option Ty)), (2, some Ty.selfTy), (2, some (.ref none false Ty.selfTy)),
                       (2, some (Ty.simple "u8")), (2, some (.ref none false (Ty.simple "u8"))),
                       (1, some (Ty.app "Y" [Ty.selfTy])), (1, some (.ref none false (Ty.app "Y" [tyT]))),
@@ -783,6 +787,7 @@ def GArg.mapIdent (f : String → String) : GArg → GArg
   | .lt s => .lt s
   | .lit s => .lit s
   | .assoc n t => .assoc n (Ty.mapIdent f t)
+  | .cblock e => .cblock (match e with | .ident s => .ident (f s) | l => l)
 def GArg.mapIdentL (f : String → String) : List GArg → List GArg
   | [] => []
   | a :: as => GArg.mapIdent f a :: GArg.mapIdentL f as
